@@ -179,7 +179,7 @@ class Dom(object):
             if not self.contains(x):
                 ex.add(x)
         # gap between disjoint small ranges
-        if hi - lo <= 600:
+        if hi - lo <= 300 and (self.size() < 300 and o.size() < 300):
             for x in range(lo, hi + 1):
                 if not self.contains(x) and not o.contains(x):
                     ex.add(x)
@@ -289,16 +289,34 @@ def term_of_lin(l):
     return t
 
 
-def fm_infeasible(ineqs, limit=400):
-    """ineqs: list of Lin meaning lin <= 0.  True if the system has no rational solution."""
+def fm_infeasible(ineqs, limit=600):
+    """ineqs: list of Lin (integer coefficients) meaning lin <= 0.
+    True if the system has no rational solution (integer-only Fourier-Motzkin,
+    rows de-duplicated, cheapest variable eliminated first)."""
+    seen = set()
     rows = []
+
+    def add(co, k):
+        if not co:
+            return k > 0
+        key = (frozenset(co.items()), k)
+        if key not in seen:
+            seen.add(key)
+            rows.append((co, k))
+        return False
+
     for l in ineqs:
-        rows.append(({a: Fraction(c) for a, c in l.co.items()}, Fraction(l.k)))
-    atoms = set()
-    for co, _ in rows:
-        atoms.update(co)
-    atoms = sorted(atoms, key=repr)
-    for a in atoms:
+        if add(dict(l.co), l.k):
+            return True
+    while True:
+        atoms = {}
+        for co, _ in rows:
+            for a, c in co.items():
+                p = atoms.setdefault(a, [0, 0])
+                p[0 if c > 0 else 1] += 1
+        if not atoms:
+            break
+        a = min(atoms, key=lambda x: (atoms[x][0] * atoms[x][1], repr(x)))
         pos, neg, rest = [], [], []
         for co, k in rows:
             c = co.get(a, 0)
@@ -308,27 +326,26 @@ def fm_infeasible(ineqs, limit=400):
                 neg.append((co, k, c))
             else:
                 rest.append((co, k))
-        if len(pos) * len(neg) + len(rest) > limit:
-            # give up on eliminating (sound: cannot prove infeasible)
-            rows = rest
-            continue
+        rows = rest
+        seen = set((frozenset(co.items()), k) for co, k in rows)
+        if len(pos) * len(neg) > limit:
+            continue            # sound: dropping constraints can only lose proofs
         for cp, kp, c1 in pos:
             for cn, kn, c2 in neg:
-                # c1>0, c2<0:  combine  (-c2)*P + c1*N
                 co = {}
+                m1, m2 = -c2, c1
                 for x, v in cp.items():
-                    co[x] = co.get(x, 0) + v * (-c2)
+                    if x != a:
+                        co[x] = v * m1
                 for x, v in cn.items():
-                    co[x] = co.get(x, 0) + v * c1
-                co = {x: v for x, v in co.items() if v != 0}
-                rest.append((co, kp * (-c2) + kn * c1))
-        rows = rest
-        for co, k in rows:
-            if not co and k > 0:
-                return True
-    for co, k in rows:
-        if not co and k > 0:
-            return True
+                    if x != a:
+                        nv = co.get(x, 0) + v * m2
+                        if nv:
+                            co[x] = nv
+                        else:
+                            co.pop(x, None)
+                if add(co, kp * m1 + kn * m2):
+                    return True
     return False
 
 
